@@ -4,6 +4,7 @@ import (
 	"context"
 	"fmt"
 	"strings"
+	"sync"
 	"time"
 
 	"github.com/cloudwego/eino/components/tool"
@@ -25,6 +26,13 @@ type GCall struct {
 	Chunks  int  `json:"chunks,omitempty"`
 }
 
+// toolsState keeps the message a ToolsNode works on across an interrupt.
+type toolsState struct {
+	Msg *schema.Message
+}
+
+var regToolsState sync.Once
+
 type callTool struct {
 	c  *GCall
 	rr *runRec
@@ -37,6 +45,15 @@ func (t *callTool) Info(context.Context) (*schema.ToolInfo, error) {
 func (t *callTool) run(arg string) (string, error) {
 	if t.c.DelayUs > 0 {
 		time.Sleep(time.Duration(t.c.DelayUs) * time.Microsecond)
+	}
+	if t.rr.interrupts(t.c.UID, t.c.Intr) {
+		t.rr.mu.Lock()
+		t.rr.execs[t.c.UID] = append(t.rr.execs[t.c.UID], bodyRec{In: arg, Failed: true})
+		t.rr.mu.Unlock()
+		if t.c.UID%2 == 0 {
+			return "", fmt.Errorf("tool call %d asks for a rerun: %w", t.c.UID, compose.InterruptAndRerun)
+		}
+		return "", compose.InterruptAndRerun
 	}
 	t.rr.mu.Lock()
 	t.rr.execs[t.c.UID] = append(t.rr.execs[t.c.UID], bodyRec{In: arg, Failed: t.c.Fails})
@@ -95,7 +112,20 @@ func (rr *runRec) buildToolsSub(n *GNode) (*compose.Graph[vmap, vmap], error) {
 		return nil, fmt.Errorf("bad tools sub graph shape")
 	}
 	in, tn, out := n.Stages[0][0], n.Stages[1][0], n.Stages[2][0]
-	g := compose.NewGraph[vmap, vmap]()
+	// a ToolsNode that is executed again after an interrupt is handed the zero value of its input:
+	// the message has to come from the graph's state (the way an agent keeps its history)
+	rerun := false
+	for _, c := range tn.Calls {
+		if c.Intr > 0 {
+			rerun = true
+		}
+	}
+	var gopts []compose.NewGraphOption
+	if rerun {
+		regToolsState.Do(func() { _ = compose.RegisterSerializableType[toolsState]("c10_tools_state") })
+		gopts = append(gopts, compose.WithGenLocalState(func(context.Context) *toolsState { return &toolsState{} }))
+	}
+	g := compose.NewGraph[vmap, vmap](gopts...)
 	convIn := compose.InvokableLambda(func(ctx context.Context, v vmap) (*schema.Message, error) {
 		arg := render(v)
 		rr.mu.Lock()
@@ -132,7 +162,17 @@ func (rr *runRec) buildToolsSub(n *GNode) (*compose.Graph[vmap, vmap], error) {
 	if err := g.AddLambdaNode(nodeKey(in.Key), convIn, compose.WithNodeName(unitName(in.UID))); err != nil {
 		return nil, err
 	}
-	if err := g.AddToolsNode(nodeKey(tn.Key), node, compose.WithNodeName(unitName(tn.UID))); err != nil {
+	tnOpts := []compose.GraphAddNodeOpt{compose.WithNodeName(unitName(tn.UID))}
+	if rerun {
+		tnOpts = append(tnOpts, compose.WithStatePreHandler(func(_ context.Context, m *schema.Message, st *toolsState) (*schema.Message, error) {
+			if m != nil && len(m.ToolCalls) > 0 {
+				st.Msg = m
+				return m, nil
+			}
+			return st.Msg, nil
+		}))
+	}
+	if err := g.AddToolsNode(nodeKey(tn.Key), node, tnOpts...); err != nil {
 		return nil, err
 	}
 	if err := g.AddLambdaNode(nodeKey(out.Key), convOut, compose.WithNodeName(unitName(out.UID))); err != nil {
